@@ -20,6 +20,13 @@ pub mod vec;
 pub use self::vec::Vec;
 
 mod str;
+/// Verification hook (only with `--cfg bumpalo_verif`): read access to the
+/// private UTF-8 lead-byte width table used by the lossy decoder.
+#[cfg(bumpalo_verif)]
+#[doc(hidden)]
+pub fn verif_utf8_char_width(b: u8) -> usize {
+    self::str::utf8_char_width(b)
+}
 pub mod string;
 pub use self::string::String;
 
